@@ -439,6 +439,30 @@ def spherical_inverse(rep):
                   f"(r, theta, phi): {why}"[:300], node=fn)
 
 
+def trim_width(rep):
+    """The width the trimming helpers cut (mask_len) is the reach of the centred stencil the
+    constructor installed, for every order it accepts -- the supported ones and those it
+    normalises to a default.  Constructor executed by the partial evaluator, stencil reach
+    from the extracted linear form."""
+    from . import c07
+    from ..tensor import _Closure
+    fns = rep.sources.functions(c07.FD)
+    for order in list(c07.ORDERS) + list(c07.UNSUPPORTED_ORDERS):
+        fn, attrs = c07.init_state(rep, order)
+        cen = attrs.get("centered")
+        if not isinstance(cen, _Closure) or cen.name not in fns:
+            raise AnalysisError(f"FiniteDifference(fd_order={order}): the centred stencil "
+                                f"installed ({cen!r}) is not a function of the module")
+        lin = c07.extract_stencil(rep, fns[cen.name])
+        half = max(abs(k) for k in lin.w)
+        m = attrs.get("mask_len")
+        rep.check(isinstance(m, int) and not isinstance(m, bool) and m == half, "trim-width",
+                  f"{c07.FD}::FiniteDifference.__init__::mask_len(fd_order={order})",
+                  f"constructed with fd_order={order} the object uses {cen.name} (reach {half} "
+                  f"points) but mask_len is {m!r}: cutoffmask/cutoffmask2 do not remove the "
+                  "stencil half-width", node=fn)
+
+
 def run(rep):
     rep.explanation = (
         "Structural decision of the count/position/extent/shape clauses of C16 for all "
@@ -448,7 +472,6 @@ def run(rep):
         "in every consumer, the trimming helpers cut the same multiple of mask_len on both "
         "sides of every axis on their only path.  The Cartesian<->spherical round trip "
         "(trigonometry) is not decided.")
-    rep.assume("mask_len >= 1 for every order (C07 dispatch rule)")
     S = rep.sources
     init, T = init_terms(rep)
     coordinate_arrays(rep, init, T)
@@ -458,6 +481,7 @@ def run(rep):
     meshgrid(rep, init, T)
     axis_index_pairing(rep)
     trims(rep)
+    trim_width(rep)
     spherical_formulas(rep)
     spherical_inverse(rep)
     # ... for the lifetime of the object: no in-place sink reaches an attribute of the shared
@@ -469,3 +493,4 @@ def run(rep):
     rep.floor("extent-provenance", 9)
     rep.floor("axis-siblings", 12)
     rep.floor("symmetric-trim", 8)
+    rep.floor("trim-width", 7)
